@@ -418,7 +418,7 @@ Definition textual_class (c : cdiff) : bool :=
   && forallb textual_field (cd_fields c) && forallb textual_meth (cd_methods c).
 Definition is_anone (a : action str) : bool := match a with ANone => true | _ => false end.
 Definition textual_diff (d : mdiffs) : bool :=
-  wf_diff d && forallb textual_class (d_classes d) && is_anone (d_info d) && is_anone (d_doc d).
+  wf_diff d && forallb textual_class (d_classes d) && is_anone (d_info d) && is_anone (norm_action (d_doc d)).
 
 Definition nonempty_valid (valid : str -> bool) : Prop := forall s, valid s = true -> s <> [].
 
@@ -814,5 +814,5 @@ Proof.
   rewrite build_classes. rewrite (interp_classes _ Hcs Hws). cbn [bind].
   assert (Hn : nodupb str_eqb (map cd_name (map norm_class (d_classes d))) = true).
   { rewrite map_map. exact Hnd. }
-  rewrite Hn. unfold norm. destruct (d_info d); try discriminate. destruct (d_doc d); try discriminate. reflexivity.
+  rewrite Hn. unfold norm. destruct (d_info d); try discriminate. destruct (norm_action (d_doc d)); try discriminate. reflexivity.
 Qed.
